@@ -70,4 +70,20 @@ def switchHi (stair : Bool) (stype : Nat) (hi : Nat) (isOn : Bool) : Nat :=
   let hi1 := if stair ∧ hi ≠ 0 ∧ stype = 0 then 1 else hi
   if hi1 = 255 then (if isOn then 0 else 1) else hi1
 
+/-! ### what a relay remembers for a restart (C07) -/
+
+/-- what supla_esp_gpio_relay_hi remembers for a restart (supla_esp_state.Relay[i], only for relays with a restore flag): the
+    logical level that was asked for - not the level of the pin -/
+def relaySaved (restore : Bool) (want : Bool) : Option Bool := if restore then some want else none
+
+/-- supla_esp_gpio_init for a relay that is restored: relay_hi with the remembered state -/
+def relayRestore (c : RelayCfg) (saved : Bool) : RelaySt := { out := if c.loLevel then !saved else saved }
+
+/-- which relays are restored: 'restore always' in every case, plain 'restore' only after a power cycle (reset reason 0) -/
+def restores (force plain : Bool) (reason : Nat) : Bool := force || (plain && reason == 0)
+
+/-- the logical state a relay has after the boot: the remembered one if it is restored, otherwise what the idle pin (low) means -/
+def logicalAfterBoot (c : RelayCfg) (force plain : Bool) (reason : Nat) (saved : Bool) : Bool :=
+  if restores force plain reason then (relayRestore c saved).logical c else ({ out := false } : RelaySt).logical c
+
 end SuplaVerif
